@@ -249,7 +249,11 @@ pub fn build(mut solver: Solver, m: &Model, named: bool, tagged: bool, style_see
     let mut failed_at = None;
     for (i, c) in m.cons.iter().enumerate() {
         let tag = if tagged { NonZero::new(i as u32 + 1) } else { None };
-        if post_cons(&mut solver, &vars, c, Mode::Post, tag, r.next()).is_err() {
+        let res = post_cons(&mut solver, &vars, c, Mode::Post, tag, r.next());
+        if std::env::var_os("PHARNESS_EAGER").is_some() {
+            eprintln!("# post {} {} -> {:?}", i, c.full_kind(), res);
+        }
+        if res.is_err() {
             failed_at = Some(i);
             break;
         }
